@@ -351,6 +351,38 @@ def oracle_empty():
                 return 'SigDomain(2) followed by parse_coniclifts_constraints of the empty set %s did not report emptiness' % label
             except RuntimeError:
                 pass
+        # empty sets whose inequality offsets are all positive and whose emptiness comes from an EQUATION (or from two equations): every way of
+        # building a domain (coniclifts constraints, AbK, inferred from signomial / polynomial constraints) reports them at construction
+        xe = cl.Variable(shape=(2,), name='empty_eq_x')
+        for label, cons_t in (('{x0 <= 0.5, x0 == 1}', [xe[0] <= 0.5, xe[0] == 1]), ('{x0 + x1 == 3, x0 <= 1, x1 <= 1}', [xe[0] + xe[1] == 3, xe <= 1]),
+                              ('{x0 == 1, x0 == 2}', [xe[0] == 1, xe[0] == 2])):
+            try:
+                SigDomain(2, coniclifts_cons=cons_t)
+                return 'SigDomain(2, coniclifts_cons=...) of the empty set %s did not report emptiness' % label
+            except RuntimeError:
+                pass
+        for label, AbK in (('{x : x0 + 1 == 0, x0 + 2 == 0}', (np.array([[1.0, 0.0], [1.0, 0.0]]), np.array([1.0, 2.0]), [cl.Cone('0', 2)])),
+                           ('{x : 0.5 - x0 >= 0, 1 - x0 == 0}',
+                            (np.array([[-1.0, 0.0], [-1.0, 0.0]]), np.array([0.5, 1.0]), [cl.Cone('+', 1), cl.Cone('0', 1)]))):
+            try:
+                import scipy.sparse as sp_
+                SigDomain(2, AbK=(sp_.csc_matrix(AbK[0]), AbK[1], AbK[2]))
+                return 'SigDomain(2, AbK=...) of the empty set %s did not report emptiness' % label
+            except RuntimeError:
+                pass
+        y2 = so.standard_sig_monomials(2)
+        try:
+            ss.infer_domain(y2[0], [0.5 - y2[0]], [y2[0] - 1])          # e^x0 <= 0.5 and e^x0 == 1
+            return 'an empty inferred domain {e^x0 <= 0.5, e^x0 == 1} was not detected at construction'
+        except RuntimeError:
+            pass
+        from sageopt.relaxations import sage_polys as sp
+        xp = so.standard_poly_monomials(2)
+        try:
+            sp.infer_domain(xp[0] ** 2, [0.5 - xp[0] ** 2], [xp[0] ** 2 - 1])       # x0^2 <= 0.5 and x0^2 == 1
+            return 'an empty inferred PolyDomain {x0^2 <= 0.5, x0^2 == 1} was not detected at construction'
+        except (RuntimeError, ValueError):
+            pass
         # solution recovery reads a domain, it does not redefine it: after sig_solrec the lists X.gts / X.eqs are what they were
         from sageopt.relaxations import sig_solution_recovery as ssr
         y3 = so.standard_sig_monomials(2)
